@@ -14,8 +14,9 @@
 (* points of shapes.  4/uF^2 times the squared real distance of two lattice*)
 (* points is Q(a,b) = 4dx^2 + 3dy^2, an integer: lengths are compared      *)
 (* exactly without sqrt(3).  Vertex arrays that are not on such a lattice  *)
-(* live on an ordinary integer grid (metric irrelevant for what is claimed *)
-(* about them).                                                            *)
+(* (irregular ArrayTriangles(indices, vertices), with_vertices) live on an *)
+(* ordinary integer grid; what is claimed about them needs no metric: the  *)
+(* neighbour across an edge is the half-turn image b + c - a.              *)
 (*                                                                         *)
 (* A triangle is a sequence <<a, b, c>> of points; as a geometric object   *)
 (* it is its vertex set VSet(t) (vertex order is representation detail).   *)
@@ -205,7 +206,10 @@ BaryReports(q, t) ==
     IN den # 0 /\ In01(na) /\ In01(nb) /\ In01(nc)
 
 -----------------------------------------------------------------------------
-(* Layer 2: the bounded machine.  The state is the integer-coordinate       *)
+(* Layer 2: the bounded machine.  Two kinds of initial input: coordinate    *)
+(* sets (below) and irregular vertex/index arrays (InitFree, variable       *)
+(* `free`, action NeighborhoodVI formulated like array.py).  For coordinate *)
+(* sets the state is the integer-coordinate                                 *)
 (* representation as the implementation keeps it (coordinates, flipped      *)
 (* flag, y offset, level); its actions are formulated like the code         *)
 (* (parity-dependent child / neighbour offsets).  Layer 3 states that this  *)
